@@ -79,6 +79,27 @@ def gen_cases(rng, tier):
         else:
             ops = rand_path_ops(rng, w / 2 + rng.uniform(-w, w) * 0.4, h / 2 + rng.uniform(-h, h) * 0.4, max(w, h) * rng.uniform(0.3, 1.2), curves=rng.random() < 0.5)
         cases.append(("hair_px", [cap, int(aa), width, w, h, 1 if w <= 40 else 0] + (rand_ts(rng) if rng.random() < 0.3 else list(IDENT)) + ops))
+    # curves entering / leaving the pixmap: all control points but the last (or the first) on one side outside
+    for i in range(80 if tier == "quick" else 1200):
+        w, h = rng.choice([(100, 100), (60, 40), (24, 24)])
+        n = rng.choice([3, 4, 4])
+        side = rng.randrange(4)
+        def outside():
+            d = rng.uniform(0.5, 3.0)
+            if side == 0: return (-d * w, rng.uniform(0.1, 0.9) * h)
+            if side == 1: return (w + d * w, rng.uniform(0.1, 0.9) * h)
+            if side == 2: return (rng.uniform(0.1, 0.9) * w, -d * h)
+            return (rng.uniform(0.1, 0.9) * w, h + d * h)
+        inside = lambda: (rng.uniform(0.15, 0.85) * w, rng.uniform(0.15, 0.85) * h)
+        outs = sorted([outside() for _ in range(n - 1)], key=lambda p: -(abs(p[0] - w / 2) + abs(p[1] - h / 2)))
+        if rng.random() < 0.5:
+            pts = outs + [inside()]                       # entering
+        else:
+            pts = [inside() for _ in range(n - 1)] + [outside()]   # leaving
+        if rng.random() < 0.3:
+            pts.reverse()
+        ops = [0, f2b(round(pts[0][0], 2)), f2b(round(pts[0][1], 2)), n - 1] + [f2b(round(v, 2)) for p in pts[1:] for v in p]
+        cases.append(("hair_px", [rng.randrange(3), i % 2, 0, w, h, 1 if w <= 40 else 0] + list(IDENT) + ops))
     # large cubics with lopsided control polygons (the subdivision count must follow the larger deviation)
     for i in range(24 if tier == "quick" else 400):
         w, h = rng.choice([(200, 120), (160, 160), (120, 200)])
